@@ -259,6 +259,28 @@ func mkExec(scripts [][]op, epoch time.Time, timeline bool) *mc.Exec {
 				}
 			}
 		}
+		// order, second form: the loop hands over one item at a time, so an item a
+		// that was fully enqueued before some callback c returned is in the queue
+		// when the loop picks what follows c; nothing with a later time may be
+		// picked in front of it
+		for _, a := range m.items {
+			for _, b := range m.items {
+				if a == b || a.execs != 1 || b.execs != 1 || !(a.due < b.due) || pos[a.id] < pos[b.id] {
+					continue
+				}
+				if ca, conc := cancelsOf(a); len(ca) > 0 || conc {
+					continue
+				}
+				for _, c := range m.items {
+					if c == a || c == b || c.execs != 1 {
+						continue
+					}
+					if a.enqEnd < c.execEnd && c.execEnd < b.execStart {
+						return fmt.Errorf("[key=order-after-a-callback] item %d (due %v) was in the queue before the callback of item %d returned (step %d), yet item %d (due %v) was handed over next in front of it", a.id, a.due, c.id, c.execEnd, b.id, b.due)
+					}
+				}
+			}
+		}
 		sort.Strings(oc)
 		mc.Outcome(strings.Join(oc, " ") + fmt.Sprint(m.order))
 		return nil
@@ -391,6 +413,14 @@ func scenarios() []hx.Scenario {
 		}
 	}
 	horizon = time.Second
+	// a burst of items due together, and an earlier item enqueued while the
+	// burst is being handed over
+	for _, late := range []op{{'E', "c", 5}, {'E', "c", 9}, {'E', "c", 10}} {
+		for _, w := range []int{9, 10, 11} {
+			add([][]op{{{'E', "a", 10}, {'E', "b", 10}, {'E', "d", 10}}, {{'W', "", w}, late}}, false, mc.TimerGo123, nil, "burst:")
+			add([][]op{{{'E', "a", 10}, {'E', "b", 11}, {'E', "d", 12}}, {{'W', "", w}, late}}, true, mc.TimerGo123, nil, "burst:")
+		}
+	}
 	// two Close calls from different goroutines next to a client at work: every
 	// Close — also the one that finds the processor already being closed —
 	// returns only when no callback is running or will run
